@@ -67,6 +67,10 @@ def cases(ctx):
         # the maintainers' own case studies (tutorial notebooks, quick-start), re-enacted step by step
         if ctx.mine(i):
             yield {'kind': 'tutorial', 'name': name}
+    for i, sd in enumerate([1463542632, 20, 42, 1234, 98766, 314158, 2718280, 161802, 5772156, 66260700, 1380648, 8314462]):
+        # MINPACK's 'lm' first (it flags convergence by several criteria, one of which survives a residual that is not a number)
+        if ctx.mine(i + 7):
+            yield {'seed': sd, 'guess': 'zero', 'first': 6, 'lengths': lengths, 'cross': True, 'hybr': True, 'via': 'setters', 'kT_via': 'ctor', 'deferred': True, 'intgrid': False}
     for it in range(n):
         if it % 4 == 3:
             yield {'kind': 'cost_ref', 'seed': int(rng.integers(0, 2 ** 31)), 'via': str(rng.choice(G.VIAS)), 'kT_via': str(rng.choice(['ctor', 'assign']))}
